@@ -9,6 +9,7 @@ Open Scope Z_scope.
 Section Html.
 Variable E : renv.
 Variable ops : list esc_op.
+Variable xt : str -> template.     (* the render function a plugin registered for its token type *)
 
 Definition rt (t : template) (vals : list pv) : str := render E ops t vals.
 Definition popt (o : option str) : pv := match o with Some s => PStr s | None => PNone end.
@@ -24,11 +25,12 @@ Definition tok_args (children : str) (t : tok) : template * list pv :=
   | TEmphasis _ => (tmpl_html_emphasis, [PStr children])
   | TStrong _ => (tmpl_html_strong, [PStr children])
   | TLink img _ url title _ _ => ((if img then tmpl_html_image else tmpl_html_link), [PStr children; PStr url; popt title])
+  | TExt name _ => (xt name, [PStr children])
   end.
 
 Fixpoint html_tok (t : tok) : str :=
   let children := match t with
-                  | TEmphasis ch | TStrong ch | TLink _ ch _ _ _ _ => flat_map html_tok ch
+                  | TEmphasis ch | TStrong ch | TLink _ ch _ _ _ _ | TExt _ ch => flat_map html_tok ch
                   | _ => []
                   end in
   let '(tm, vals) := tok_args children t in rt tm vals.
